@@ -378,7 +378,12 @@ func (c *connectionContext) nodesToEdges(nodes []interface{}) (edges []Edge) {
 		if keyValue.Kind() == reflect.Ptr {
 			keyValue = keyValue.Elem()
 		}
-		keyString := []byte(fmt.Sprintf("%v", keyValue.FieldByName(c.Key).Interface()))
+		key := keyValue.FieldByName(c.Key)
+		// A pointer key names its element by the value it points to, not by its address.
+		for key.Kind() == reflect.Ptr && !key.IsNil() {
+			key = key.Elem()
+		}
+		keyString := []byte(fmt.Sprintf("%v", key.Interface()))
 		cursorVal := base64.StdEncoding.EncodeToString(keyString)
 		edges = append(edges, Edge{Node: node, Cursor: cursorVal})
 	}
